@@ -890,11 +890,32 @@ func (x *Exec) loopHeader(st *State, fr *Frame, h *ssa.BasicBlock, pred *ssa.Bas
 	rec := loopRec{header: h.Index, frameID: fr.id, traceLen: len(st.trace), heap: st.heapCopy(), alloc: st.alloc}
 	if spec != nil {
 		for _, inv := range spec.Inv {
-			st.assume(env.hyp(inv))
+			// an invariant that cannot be evaluated here was already reported (inv_entry); it is not assumed
+			func() {
+				defer func() {
+					if r := recover(); r != nil {
+						if _, ok := r.(*EngineError); !ok {
+							panic(r)
+						}
+					}
+				}()
+				st.assume(env.hyp(inv))
+			}()
 		}
 		if spec.Decr != nil {
-			d := env.typed(env.eval(spec.Decr.Expr), types.Typ[types.Int])
-			rec.decr = scalar(types.Typ[types.Int], KInt, st.define("variant", x.toIdx(st, d)))
+			func() {
+				defer func() {
+					if r := recover(); r != nil {
+						ee, ok := r.(*EngineError)
+						if !ok {
+							panic(r)
+						}
+						x.emit(st, fmt.Sprintf("decreases:%s", label), "decreases", tFalse, "loop variant cannot be evaluated: "+ee.Msg)
+					}
+				}()
+				d := env.typed(env.eval(spec.Decr.Expr), types.Typ[types.Int])
+				rec.decr = scalar(types.Typ[types.Int], KInt, st.define("variant", x.toIdx(st, d)))
+			}()
 		}
 	}
 	rec.atHeader = map[string]*Val{}
